@@ -65,6 +65,9 @@ def check_fallback(ctx):
         if not (isinstance(e, ast.Call) and isinstance(e.func,
                                                        ast.Subscript)):
             continue
+        from .c01 import const_class_table
+        if const_class_table(prog, pc.module, e.func.value):
+            continue            # '@' / '!' picked from a table (C01.CONST)
         n += 1
         reg_expr = e.func.value
         key = e.func.slice
@@ -86,8 +89,18 @@ def check_fallback(ctx):
                    and isinstance(c.expr, ast.Compare)
                    and isinstance(c.expr.ops[0], ast.In)
                    and isinstance(c.expr.left, ast.Subscript)]
-            regs = {U(t.expand(c.expr.comparators[0])) for c in neg}
-            ok = len(neg) >= 2
+            regs = set()
+            for c in neg:
+                r = t.expand(c.expr.comparators[0])
+                if isinstance(r, ast.Call) and U(r.func).endswith(
+                        'ChainMap') and r.args and not r.keywords:
+                    # one mapping view over several registries
+                    regs |= {U(a) for a in r.args}
+                else:
+                    regs.add(U(r))
+            ok = len(regs) >= 2 and any(
+                'registered_checks' in r for r in regs) and any(
+                    'get_extensions(' in r for r in regs)
             ctx.ob('C05.FALLBACK', ok, '%s:%d' % (W.split(':')[0],
                                                   p.outcome.line), pc.qual,
                    'default-kind lookup after %s' % sorted(regs),
@@ -279,7 +292,9 @@ def check_walker(ctx, walker):
                 'loop (line %d) instead of one per recursive call: the rules '
                 'on its base case, step and list fold read the recursive '
                 'form only' % (f.qual, getattr(n, 'lineno', n.iter.lineno)))
-    t = Table(prog, f)
+    from ..dte import inline_helpers
+    t = Table(prog, f, inline=inline_helpers(prog, modules={CHECKS},
+                                             exclude={f.qual}))
     W = ctx.where(f.module, f.node)
 
     def is_rest(x):
@@ -379,6 +394,14 @@ def check_walker(ctx, walker):
                    'the list branch is not an ANY fold over elements with '
                    'the remaining segments (hit -> %s)' % U(e))
             continue
+        recs = [c for c in p.conds if c.kind == 'test' and isinstance(
+            t.expand(c.expr), ast.Call) and prog.callee_of(
+                f, t.expand(c.expr)) is f]
+        if len(recs) == 1 and is_const(e) and isinstance(
+                e.value, bool) and e.value is recs[0].pol:
+            # `if walk(...): return True ... return False`: the answer of
+            # the recursive call (a bool) handed on
+            e = t.expand(recs[0].expr)
         if isinstance(e, ast.Call) and prog.callee_of(f, e) is f:
             n_rec += 1
             a = e.args
